@@ -426,6 +426,9 @@ class Gen:
             w("        case %d: events_%d(p, img.size(), k, o); return true;" % (i, i))
         w("        default: return false; } }")
         w("    if(cmd == \"checked\") { std::size_t which = static_cast<std::size_t>(tk.dec()); std::vector<unsigned char> img = tk.bytes(); unsigned char* p = gb.place(img.data(), img.size(), true);")
+        w("#ifdef RT_COUNT_CALLS")
+        w("        rt::g_guard_ptr = &rt::guard(); rt::g_calls = 0; rt::g_budget = tk.more() ? tk.dec() : 0;")
+        w("#endif")
         w("        switch(mi) {")
         for i in range(len(m.messages)):
             w("        case %d: checked_%d(which, p, img.size(), o); return true;" % (i, i))
@@ -551,7 +554,7 @@ struct EventVisitor
     template<typename T> std::string val(T t, std::integral_constant<int, 0>) { return rt::Out::hex64(rt::bits(t.value())); }
     template<typename T> std::string val(T t, std::integral_constant<int, 1>) { return rt::Out::hex64(rt::enum_bits(t)); }
     template<typename T> std::string val(T t, std::integral_constant<int, 2>) { return rt::Out::hex64(rt::bits(*t)); }
-    template<typename T> std::string val(T t, std::integral_constant<int, 3>) { return rt::Out::hexbytes(t.data(), t.size()); }
+    template<typename T> std::string val(T t, std::integral_constant<int, 3>) { return rt::Out::hexbytes(t.data(), o.clamp(t.data(), t.size())); }
     template<typename T> bool leaf(T t, const char* name, std::false_type)
     {
         ev(std::string("F ") + name + " " + val(t, std::integral_constant<int,
@@ -591,7 +594,7 @@ struct EventVisitor
     template<typename T, typename Tag> bool on_composite(T t, Tag) { return any(t, tagname(Tag())); }
     template<typename D, typename Tag> bool on_data(D d, Tag)
     {
-        ev(std::string("D ") + tagname(Tag()) + " " + std::to_string(d.size()) + " " + rt::Out::hexbytes(d.data(), d.size()));
+        ev(std::string("D ") + tagname(Tag()) + " " + std::to_string(d.size()) + " " + rt::Out::hexbytes(d.data(), o.clamp(d.data(), d.size())));
         return stopped;
     }
 };
@@ -614,7 +617,12 @@ int main()
         bool known = true;
         RT_GUARDED(known = drv::dispatch(cmd, mi, tk, gb, o));
         rt::Guard& g = rt::guard();
-        if(g.kind == 1) std::cout << "ASSERT " << g.expr << " || " << o.s << std::endl;
+#ifdef RT_COUNT_CALLS
+        rt::g_budget = 0;
+        o.kv("calls", rt::g_calls);
+#endif
+        if(g.kind == 3) std::cout << "BUDGET " << o.s << std::endl;
+        else if(g.kind == 1) std::cout << "ASSERT " << g.expr << " || " << o.s << std::endl;
         else if(g.kind == 2) std::cout << "SEGV " << (static_cast<unsigned char*>(g.fault_addr) - gb.end()) << " || " << o.s << std::endl;
         else if(!known) std::cout << "ERR unknown command" << std::endl;
         else std::cout << "OK " << o.s << std::endl;
